@@ -197,6 +197,8 @@ func (p *redisProc) handleRequest(req *rawRequest) {
 	hdlr, ok := p.findHandler(cmd)
 	if !ok {
 		// unsupported command
+		// NOTE: the name is client supplied, CR or LF in it must not end the error line.
+		cmd = strings.NewReplacer("\r", " ", "\n", " ").Replace(cmd)
 		req.SetResponse(newError(fmt.Sprintf("ERR unsupported command '%s'", cmd)))
 		return
 	}
